@@ -104,3 +104,64 @@ Fixpoint js_ok (en : env) (e : expr) {struct e} : Prop :=
   | _ => True
   end.
 Fixpoint js_ok_args (en : env) (l : list expr) : Prop := match l with [] => True | x :: r => js_ok en x /\ js_ok_args en r end.
+
+(* ---- reading the JavaScript tree back: the expression it denotes, with names in place of table indices ---- *)
+Inductive nexpr :=
+| NLit (s : string) | NSym (s : string) | NVar (s : string) | NThis
+| NGlob (s : string) | NProp (owner s : string)
+| NBin (o : binop) (a b : nexpr) | NNeg (a : nexpr) | NNot (a : nexpr)
+| NCall (f : string) (args : list nexpr) | NList (items : list nexpr) | NPList (items : list nexpr).
+
+(* the source expression with its names looked up *)
+Fixpoint name_e (fm : bool) (en : env) (e : expr) {struct e} : nexpr :=
+  match e with
+  | EInt n => NLit (LingoGen.js_const KConst (str_of_int n))
+  | EConst k => match nth k (e_consts en) (CInt 0) with CInt z => NLit (str_of_int z) | CStr s => NLit (LingoGen.js_const KConst s) end
+  | ESym n => NSym (nm en n)
+  | ELoc i => let s := name_of (nth i (e_locals en) (Leaf KLocal "" 0 true)) in if fm && String.eqb s "me" then NThis else NVar s
+  | EPar i => let s := name_of (nth i (e_params en) (Leaf KParam "" 0 true)) in if fm && String.eqb s "me" then NThis else NVar s
+  | EGlob n => NGlob (nm en n)
+  | EProp n => NProp (match assoc_str (nm en n) VARIABLE_KNOWN_PROPERTIES with Some o => o | None => if fm then "this" else "me" end) (nm en n)
+  | EBin o x y => NBin o (name_e fm en x) (name_e fm en y)
+  | ENeg x => NNeg (name_e fm en x)
+  | ENot x => NNot (name_e fm en x)
+  | ECall f args => NCall (nm en f) (map (name_e fm en) args)
+  | ELCall f args => NCall (nth f (e_lfuncs en) "") (map (name_e fm en) args)
+  | EList items => NList (map (name_e fm en) items)
+  | EPList items => NPList (map (name_e fm en) items)
+  end.
+
+Definition all_binops : list binop :=
+  [Mul; Add; Sub; Div; Mod; Concat; Concats; Lt; Lte; Ne; Eq; Gt; Gte; And; Or; Contains; Start; Intersects; Within].
+Definition jskind_eqb (a b : jskind) : bool :=
+  match a, b with
+  | KInfix x, KInfix y | KMeth x, KMeth y | KSpr x, KSpr y => String.eqb x y
+  | _, _ => false
+  end.
+(* the Lingo operator a JavaScript operator form stands for *)
+Definition binop_of (k : jskind) : option binop := find (fun o => jskind_eqb (js_binop o) k) all_binops.
+
+Fixpoint all_some_n (l : list (option nexpr)) : option (list nexpr) :=
+  match l with
+  | [] => Some []
+  | Some a :: r => match all_some_n r with Some r' => Some (a :: r') | None => None end
+  | None :: _ => None
+  end.
+
+Fixpoint read_js (j : js) {struct j} : option nexpr :=
+  match j with
+  | JLit s => Some (NLit s)
+  | JSym s => Some (NSym s)
+  | JVar s => Some (NVar s)
+  | JThis => Some NThis
+  | JMember o f => if String.eqb o "_global" then Some (NGlob f) else Some (NProp o f)
+  | JBin op a c => match binop_of (KInfix op), read_js a, read_js c with Some o, Some x, Some y => Some (NBin o x y) | _, _, _ => None end
+  | JMethod m a c => match binop_of (KMeth m), read_js a, read_js c with Some o, Some x, Some y => Some (NBin o x y) | _, _, _ => None end
+  | JSprite m a c => match binop_of (KSpr m), read_js a, read_js c with Some o, Some x, Some y => Some (NBin o x y) | _, _, _ => None end
+  | JUn op a => match read_js a with
+                | Some x => if String.eqb op "-" then Some (NNeg x) else if String.eqb op "!" then Some (NNot x) else None
+                | None => None end
+  | JCall f args => option_map (NCall f) (all_some_n (map read_js args))
+  | JList items => option_map NList (all_some_n (map read_js items))
+  | JPropList items => option_map NPList (all_some_n (map read_js items))
+  end.
